@@ -39,6 +39,8 @@ type instanceState struct {
 	lock      sync.Mutex
 	count     int32
 	requestId int64
+	// hasRequestId tells that requestId is the id of a processed report
+	hasRequestId bool
 }
 
 func (f *globalMaxInflight) Type() proxyv1alpha1.FlowControlSchemaType {
@@ -104,11 +106,13 @@ func (f *globalMaxInflight) SetState(instance string, requestId int64, current i
 	state.lock.Lock()
 	defer state.lock.Unlock()
 
-	if requestId > 0 {
-		if requestId <= state.requestId {
+	// 0 is "no request id". Every other id, also a negative one, must be newer than the last one
+	// processed for the instance (gateways send their UnixNano send time).
+	if requestId != 0 {
+		if state.hasRequestId && requestId <= state.requestId {
 			return false, current, RequestIDTooOld
 		}
-		state.requestId = requestId
+		state.requestId, state.hasRequestId = requestId, true
 	}
 
 	old := atomic.SwapInt32(&state.count, current)
